@@ -645,6 +645,7 @@ var mutations = []mutation{
 			{"serverauth"}, {""}, {"ServerAuth", ""}, {"Any "}, {"ExtKeyUsageServerAuth"}, {"OCSPSigning", "TimeStamping", "IPSECUser", "IPSECTunnel", "IPSECEndSystem"},
 			{"MicrosoftServerGatedCrypto", "NetscapeServerGatedCrypto", "CodeSigning", "EmailProtection", "ClientAuth"}, {"ClientAuth", "any"}, {}}[r.Intn(14)]
 	}},
+	{"eku-random", func(r *mrand.Rand, c *configpb.LogConfig) { c.ExtKeyUsages = randomEKUs(r) }},
 	{"start-only", func(r *mrand.Rand, c *configpb.LogConfig) {
 		c.NotAfterStart, c.NotAfterLimit = tsPB(okTimes[r.Intn(len(okTimes))]), nil
 	}},
@@ -756,6 +757,43 @@ var mutations = []mutation{
 	{"backend-name", func(r *mrand.Rand, c *configpb.LogConfig) {
 		c.LogBackendName = []string{"", "be0", "be1", "nope", "be0 "}[r.Intn(5)]
 	}},
+}
+
+// Names that are NOT in the table of known extended key usages: misspellings, other cases, blanks,
+// the Go identifier, the empty string.
+var unknownEKUs = []string{"Bogus", "TimeStomping", "any", "ANY", "Any ", " Any", "", "serverAuth", "ExtKeyUsageAny", "Server Auth"}
+
+var knownEKUNames = []string{"ServerAuth", "ClientAuth", "CodeSigning", "EmailProtection", "IPSECEndSystem", "IPSECTunnel", "IPSECUser",
+	"TimeStamping", "OCSPSigning", "MicrosoftServerGatedCrypto", "NetscapeServerGatedCrypto"}
+
+// randomEKUs: 0..5 names, each known, unknown or "Any" - so that unknown names land before, between and
+// after known names and "Any" (the position relative to the FIRST "Any" decides whether the name counts).
+func randomEKUs(r *mrand.Rand) []string {
+	n := r.Intn(6)
+	xs := []string{}
+	for i := 0; i < n; i++ {
+		switch r.Intn(5) {
+		case 0:
+			xs = append(xs, "Any")
+		case 1:
+			xs = append(xs, unknownEKUs[r.Intn(len(unknownEKUs))])
+		default:
+			xs = append(xs, knownEKUNames[r.Intn(len(knownEKUNames))])
+		}
+	}
+	return xs
+}
+
+// ekuGrid: every unknown name at every position relative to known names and "Any".
+func ekuGrid() [][]string {
+	g := [][]string{{"Any", "Any"}, {"ServerAuth", "Any", "ClientAuth"}, {"Any", "ServerAuth"}, knownEKUNames, append(append([]string{}, knownEKUNames...), "Any")}
+	for _, u := range unknownEKUs {
+		g = append(g, []string{u}, []string{u, "Any"}, []string{"Any", u}, []string{u, u, "Any"}, []string{u, "Any", "Any"}, []string{"Any", u, "Any"},
+			[]string{"ServerAuth", u, "Any"}, []string{u, "ServerAuth", "Any"}, []string{"ServerAuth", "Any", u},
+			[]string{"ServerAuth", u, "ClientAuth"}, []string{"ServerAuth", "ClientAuth", u}, []string{u, "ServerAuth"},
+			[]string{"ServerAuth", "Any", "ClientAuth", u}, []string{"ServerAuth", "ClientAuth", u, "OCSPSigning", "Any"})
+	}
+	return g
 }
 
 // genConfig: a base configuration with 0..3 mutations (quota 1/4 pristine).
@@ -1164,6 +1202,17 @@ func pickSet(r *mrand.Rand, n *int) ([]*configpb.LogConfig, []string) {
 		case 5:
 			cs[i].Prefix = "/" + cs[j].Prefix
 			tags = append(tags, "set:prefix-slash-variant")
+		case 6: // one rule violated ACROSS backends: the prefix rule is global, the tree-id rule is per backend
+			if i != j {
+				cs[i].LogBackendName, cs[j].LogBackendName = "be0", "be1"
+				if r.Intn(2) == 0 {
+					cs[i].Prefix = cs[j].Prefix
+					tags = append(tags, "set:dup-prefix-across-backends")
+				} else {
+					cs[i].LogId = cs[j].LogId
+					tags = append(tags, "set:dup-id-across-backends")
+				}
+			}
 		}
 	}
 	return cs, tags
@@ -1192,6 +1241,119 @@ func pickBackends(r *mrand.Rand) (*configpb.LogBackendSet, string) {
 		{Name: "a", BackendSpec: "s2"}, {Name: "a-", BackendSpec: "s3"}}}, "backends:four"
 }
 
+func prefixes(cs []*configpb.LogConfig) []string {
+	var xs []string
+	for _, c := range cs {
+		xs = append(xs, c.LogBackendName+":"+c.Prefix)
+	}
+	return xs
+}
+
+type gridMulti struct {
+	m    *configpb.LogMultiConfig
+	tags []string
+}
+
+// multiBackendGrid: for 2 and 3 validly defined backends and 2..4 valid logs spread over them, one
+// configuration per (rule, scope, position): equal prefixes / equal tree ids / both, on logs of DIFFERENT
+// backends and of the SAME backend, first/last and adjacent logs; backend names and specifications
+// duplicated or empty at each position; logs referring to a missing backend, to a specification instead of
+// a name, to the empty name.  The prefix rule is global (one HTTP front end serves every log), the
+// tree-id rule is per backend: the two are only told apart by configurations with more than one backend.
+func multiBackendGrid(goodLog func() *configpb.LogConfig) []gridMulti {
+	var out []gridMulti
+	for nb := 2; nb <= 3; nb++ {
+		mkBackends := func() *configpb.LogBackendSet {
+			s := &configpb.LogBackendSet{}
+			for b := 0; b < nb; b++ {
+				s.Backend = append(s.Backend, &configpb.LogBackend{Name: fmt.Sprintf("be%d", b), BackendSpec: fmt.Sprintf("s%d", b)})
+			}
+			return s
+		}
+		// assign[i] = backend of log i; the pair (i, j) is the one made to collide
+		type shape struct {
+			assign []int
+			i, j   int
+			scope  string
+		}
+		shapes := []shape{
+			{[]int{0, 1}, 0, 1, "across"},
+			{[]int{0, 0}, 0, 1, "within"},
+			{[]int{0, 1, 1}, 0, 2, "across"},
+			{[]int{0, 1, 1}, 1, 2, "within"},
+			{[]int{1, 0, 1, 0}, 0, 3, "across"},
+			{[]int{1, 0, 1, 0}, 1, 3, "within"},
+		}
+		if nb == 3 {
+			shapes = append(shapes, shape{[]int{0, 1, 2}, 0, 2, "across"}, shape{[]int{0, 1, 2}, 1, 2, "across"},
+				shape{[]int{2, 1, 2, 0}, 0, 2, "within"}, shape{[]int{2, 1, 0, 0}, 0, 3, "across"})
+		}
+		mk := func(sh shape) ([]*configpb.LogConfig, *configpb.LogMultiConfig) {
+			var cs []*configpb.LogConfig
+			for _, b := range sh.assign {
+				c := goodLog()
+				c.LogBackendName = fmt.Sprintf("be%d", b)
+				cs = append(cs, c)
+			}
+			return cs, &configpb.LogMultiConfig{Backends: mkBackends(), LogConfigs: &configpb.LogConfigSet{Config: cs}}
+		}
+		add := func(m *configpb.LogMultiConfig, tags ...string) {
+			out = append(out, gridMulti{m, append([]string{fmt.Sprintf("multi-grid:backends=%d", nb)}, tags...)})
+		}
+		for _, sh := range shapes {
+			_, m := mk(sh)
+			add(m, "multi-grid:all-distinct")
+			cs, m := mk(sh)
+			cs[sh.j].Prefix = cs[sh.i].Prefix
+			add(m, "multi-grid:same-prefix:"+sh.scope)
+			cs, m = mk(sh)
+			cs[sh.j].LogId = cs[sh.i].LogId
+			add(m, "multi-grid:same-tree-id:"+sh.scope)
+			cs, m = mk(sh)
+			cs[sh.j].LogId, cs[sh.j].Prefix = cs[sh.i].LogId, cs[sh.i].Prefix
+			add(m, "multi-grid:same-tree-id-and-prefix:"+sh.scope)
+			cs, m = mk(sh)
+			cs[sh.j].Prefix = ""
+			add(m, "multi-grid:empty-prefix")
+		}
+		// the backend set itself
+		sh := shapes[2]
+		for pos := 0; pos < nb; pos++ {
+			other := (pos + 1) % nb
+			_, m := mk(sh)
+			m.Backends.Backend[pos].Name = m.Backends.Backend[other].Name // the logs of `pos` now refer to a missing name as well
+			add(m, "multi-grid:backend-dup-name")
+			_, m = mk(sh)
+			m.Backends.Backend[pos].BackendSpec = m.Backends.Backend[other].BackendSpec
+			add(m, "multi-grid:backend-dup-spec")
+			_, m = mk(sh)
+			m.Backends.Backend[pos].Name = ""
+			add(m, "multi-grid:backend-empty-name")
+			_, m = mk(sh)
+			m.Backends.Backend[pos].BackendSpec = ""
+			add(m, "multi-grid:backend-empty-spec")
+			_, m = mk(sh)
+			m.Backends.Backend[pos].Name, m.Backends.Backend[pos].BackendSpec = m.Backends.Backend[pos].BackendSpec, m.Backends.Backend[pos].Name
+			add(m, "multi-grid:backend-name-spec-swapped")
+			_, m = mk(sh)
+			m.Backends.Backend = append(m.Backends.Backend, proto.Clone(m.Backends.Backend[pos]).(*configpb.LogBackend))
+			add(m, "multi-grid:backend-repeated")
+		}
+		for li := range sh.assign {
+			for _, name := range []string{"", "nope", "s0", "be0 ", "BE0", fmt.Sprintf("be%d", nb)} {
+				cs, m := mk(sh)
+				cs[li].LogBackendName = name
+				add(m, "multi-grid:log-backend-undefined")
+			}
+		}
+		// an invalid log (unknown EKU name in front of "Any") on the second backend
+		cs, m := mk(sh)
+		cs[len(cs)-1].ExtKeyUsages = []string{"ServerAuth", "TimeStomping", "Any"}
+		add(m, "multi-grid:invalid-log")
+	}
+	return out
+}
+
 func main() {
 	flag.Parse()
 	klog.SetOutput(io.Discard)
@@ -1217,7 +1379,8 @@ func main() {
 		return cs
 	}()
 
-	single := func(c *configpb.LogConfig, tags []string) {
+	var single func(c *configpb.LogConfig, tags []string)
+	singleOpt := func(c *configpb.LogConfig, tags []string, withInstance bool) {
 		a := abstract(c)
 		my, pg := connTables([]*configpb.LogConfig{c})
 		var vc *ctfe.ValidatedLogConfig
@@ -1237,10 +1400,11 @@ func main() {
 			PropOK: verdict(obs, wf),
 			Note:   fmt.Sprintf("ValidateLogConfig outcome=%s clause=%q conn=%q backend=%d ekus=%q", obs, wf, c.CtfeStorageConnectionString, a.SB, c.ExtKeyUsages),
 			Tags:   tg})
-		if obs == accept {
+		if obs == accept && withInstance {
 			instanceCases(r, w, c, vc, tags)
 		}
 	}
+	single = func(c *configpb.LogConfig, tags []string) { singleOpt(c, tags, true) }
 	for _, c := range corpus {
 		single(c, []string{"corpus"})
 	}
@@ -1252,6 +1416,14 @@ func main() {
 			c.Prefix = px
 			single(c, []string{"prefix-grid", "prefix-grid:" + kind})
 		}
+	}
+
+	// every unknown extended-key-usage name at every position relative to known names and "Any": 'only known
+	// EKU names' is about each name the validator has to read, wherever a later "Any" stands
+	for gi, ekus := range ekuGrid() {
+		c := baseConfig(r, []string{"log", "readonly", "mirror"}[gi%3], 7500+gi)
+		c.ExtKeyUsages = ekus
+		singleOpt(c, []string{"eku-grid"}, gi%14 == 0)
 	}
 
 	multi := func(m *configpb.LogMultiConfig, tags []string) {
@@ -1295,6 +1467,51 @@ func main() {
 			Note:   fmt.Sprintf("BuildLogBackendMap outcome=%s clause=%q present=%v", strings.SplitN(obs, " ", 2)[0], wf, s != nil),
 			Tags:   []string{tag}})
 	}
+	configs := func(cs []*configpb.LogConfig, tags []string) {
+		my, pg := connTables(cs)
+		obs := observe(func() error { return ctfe.ValidateLogConfigs(cs) })
+		wf := wfConfigs(cs)
+		w.Add(lib.Case{Coq: fmt.Sprintf("CConfigs %s %s %s %s", coqLCs(cs), my, pg, obs),
+			Input:  map[string]interface{}{"kind": "ValidateLogConfigs", "config": protoJSON(&configpb.LogConfigSet{Config: cs})},
+			Impl:   map[string]interface{}{"outcome": obs, "violated_clause": wf},
+			PropOK: verdict(obs, wf), Note: fmt.Sprintf("ValidateLogConfigs outcome=%s clause=%q tree_ids=%s prefixes=%q", obs, wf, treeIDs(cs), prefixes(cs)),
+			Tags: append([]string{"configs:" + obs, "configs-wf:" + map[bool]string{true: "yes", false: wf}[wf == ""]}, tags...)})
+	}
+	fileMulti := func(m *configpb.LogMultiConfig, form string, tags []string) {
+		var cs []*configpb.LogConfig
+		if m.LogConfigs != nil {
+			cs = m.LogConfigs.Config
+		}
+		bs := m.Backends
+		path, ok := writeConfigFile(m, form)
+		if !ok {
+			return
+		}
+		parsed := "None"
+		if form != "garbage" {
+			parsed = lib.Some(coqMulti(m))
+		}
+		my, pg := connTables(cs)
+		var got *configpb.LogMultiConfig
+		load := observe(func() error { var err error; got, err = ctfe.MultiLogConfigFromFile(path); return err })
+		obs := load
+		roundTrip := true
+		if load == accept {
+			roundTrip = proto.Equal(got, m)
+			obs = observe(func() error { _, err := ctfe.ValidateLogMultiConfig(got); return err })
+		}
+		os.Remove(path)
+		wf := wfMulti(m)
+		if form == "garbage" || m.LogConfigs == nil || len(cs) == 0 || bs == nil || len(bs.Backend) == 0 {
+			wf = "file-unusable"
+		}
+		w.Add(lib.Case{Coq: fmt.Sprintf("CFileMulti %s %s %s %s", parsed, my, pg, obs),
+			Input:  map[string]interface{}{"kind": "MultiLogConfigFromFile", "form": form, "config": protoJSON(m)},
+			Impl:   map[string]interface{}{"load": load, "validate": obs, "round_trip": roundTrip},
+			PropOK: roundTrip && verdict(obs, wf),
+			Note:   fmt.Sprintf("MultiLogConfigFromFile form=%s load=%s validate=%s clause=%q round_trip=%v tree_ids=%s", form, load, obs, wf, roundTrip, treeIDs(cs)),
+			Tags:   append([]string{"file:multi:" + form, "file:multi:" + obs}, tags...)})
+	}
 	// absent sub-messages, explicitly
 	goodLog := func() *configpb.LogConfig { seq++; return baseConfig(r, "log", seq) }
 	be1 := &configpb.LogBackendSet{Backend: []*configpb.LogBackend{{Name: "be0", BackendSpec: "s0"}}}
@@ -1310,6 +1527,14 @@ func main() {
 			LogConfigs: &configpb.LogConfigSet{Config: []*configpb.LogConfig{a, b}}}, []string{"corpus", "multi:key-collision"})
 	}
 	backends(nil, "backends:absent")
+	// configurations over 2..3 backends in which each uniqueness rule is violated ACROSS and WITHIN backends
+	for gi, g := range multiBackendGrid(goodLog) {
+		tags := append([]string{"multi-grid"}, g.tags...)
+		multi(g.m, tags)
+		backends(g.m.Backends, "multi-grid:backends")
+		configs(cloneConfigs(g.m.LogConfigs.Config), tags)
+		fileMulti(g.m, []string{"text", "binary"}[gi%2], tags)
+	}
 
 	for i := 0; i < n; i++ {
 		seq++
@@ -1325,14 +1550,7 @@ func main() {
 			single(c, tags)
 		case 3: // ValidateLogConfigs
 			cs, tags := pickSet(r, &seq)
-			my, pg := connTables(cs)
-			obs := observe(func() error { return ctfe.ValidateLogConfigs(cs) })
-			wf := wfConfigs(cs)
-			w.Add(lib.Case{Coq: fmt.Sprintf("CConfigs %s %s %s %s", coqLCs(cs), my, pg, obs),
-				Input:  map[string]interface{}{"kind": "ValidateLogConfigs", "config": protoJSON(&configpb.LogConfigSet{Config: cs})},
-				Impl:   map[string]interface{}{"outcome": obs, "violated_clause": wf},
-				PropOK: verdict(obs, wf), Note: fmt.Sprintf("ValidateLogConfigs outcome=%s clause=%q", obs, wf),
-				Tags: append([]string{"configs:" + obs}, tags...)})
+			configs(cs, tags)
 		case 4: // ValidateLogMultiConfig + BuildLogBackendMap
 			cs, tags := pickSet(r, &seq)
 			bs, btag := pickBackends(r)
@@ -1394,34 +1612,7 @@ func main() {
 				m.LogConfigs = nil
 			}
 			form := []string{"text", "binary", "text", "binary", "garbage"}[r.Intn(5)]
-			path, ok := writeConfigFile(m, form)
-			if !ok {
-				continue
-			}
-			parsed := "None"
-			if form != "garbage" {
-				parsed = lib.Some(coqMulti(m))
-			}
-			my, pg := connTables(cs)
-			var got *configpb.LogMultiConfig
-			load := observe(func() error { var err error; got, err = ctfe.MultiLogConfigFromFile(path); return err })
-			obs := load
-			roundTrip := true
-			if load == accept {
-				roundTrip = proto.Equal(got, m)
-				obs = observe(func() error { _, err := ctfe.ValidateLogMultiConfig(got); return err })
-			}
-			os.Remove(path)
-			wf := wfMulti(m)
-			if form == "garbage" || m.LogConfigs == nil || len(cs) == 0 || bs == nil || len(bs.Backend) == 0 {
-				wf = "file-unusable"
-			}
-			w.Add(lib.Case{Coq: fmt.Sprintf("CFileMulti %s %s %s %s", parsed, my, pg, obs),
-				Input:  map[string]interface{}{"kind": "MultiLogConfigFromFile", "form": form, "config": protoJSON(m)},
-				Impl:   map[string]interface{}{"load": load, "validate": obs, "round_trip": roundTrip},
-				PropOK: roundTrip && verdict(obs, wf),
-				Note:   fmt.Sprintf("MultiLogConfigFromFile form=%s load=%s validate=%s clause=%q round_trip=%v tree_ids=%s", form, load, obs, wf, roundTrip, treeIDs(cs)),
-				Tags:   append([]string{"file:multi:" + form, "file:multi:" + obs, btag}, tags...)})
+			fileMulti(m, form, append(tags, btag))
 		}
 	}
 	os.Remove(rootsFile)
